@@ -102,7 +102,9 @@ class ProgGen(object):
     """Generates a concrete program while keeping the file-view state, so that retract cycles are matched."""
 
     MISC = ["M104 S200", "M106 S255", "M107", "M400", "M140 S60", "T0", "M999", "G4 P10", "M117 hello world",
-            "M204 S500", "M204 P800 T1000", "M205 X8 Y8", "M73 P10 R5", "M73 P50", "G29", "M82", "M220 S100"]
+            "M204 S500", "M204 P800 T1000", "M205 X8 Y8", "M73 P10 R5", "M73 P50", "G29", "M220 S100"]
+    # (M82 / M83 are deliberately absent: the filter does not interpret them - no property covers them - while the reference
+    # printer does, so they would make the two disagree about the extrusion mode)
 
     def __init__(self, rnd, regions, feats, settings=None):
         self.r = rnd
@@ -139,12 +141,15 @@ class ProgGen(object):
         for _ in range(300):
             x = round(r.uniform(lo, hi), 2)
             y = round(r.uniform(lo, hi), 2)
-            if r.random() < 0.06:
+            q = r.random()
+            if q < 0.06:
                 # bed edge: a coordinate of exactly 0 is a legal value, not a missing one
                 if r.random() < 0.5:
                     x = 0.0
                 else:
                     y = 0.0
+            elif q < 0.075:
+                x = y = 0.0
             d = depth_in(self.regs, x, y) if self.regs else -1.0
             if abs(d) < self.margin:
                 continue
@@ -266,8 +271,11 @@ class ProgGen(object):
             z = None
             if f.get("zmoves", True) and r.random() < 0.12:
                 z = round(max(0.1, self.z + r.choice([-0.4, 0.2, 0.2, 0.6, 2.0])), 2)
-            if r.random() < 0.15:
-                if r.random() < 0.5:
+            if r.random() < 0.15 or (0.0 in (x, y) and r.random() < 0.5):
+                only_x = (r.random() < 0.5) if (x == 0.0) == (y == 0.0) else (x == 0.0)
+                if 0.0 in (x, y):
+                    z = None          # "G1 X0": the only axis word has the value 0
+                if only_x:
                     self.move(x=x, z=z, de=round(0.04 * max(d, 1), 4))
                 else:
                     self.move(y=y, z=z, de=round(0.04 * max(d, 1), 4))
